@@ -3,7 +3,7 @@
 # usage: tools_thorough_all.sh [seed] [cap seconds per check] [ids...]
 export GOFLAGS=-mod=mod GOPROXY=off GOSUMDB=off GOTOOLCHAIN=local
 seed=${1:-1}; cap=${2:-1200}; shift 2 2>/dev/null
-ids=${*:-C01 C02 C03 C04 C05 C06 C08 C10 C11 C12 C15 C16 C17 C19}
+ids=${*:-C01 C02 C03 C04 C05 C06 C08 C10 C11 C12 C13 C14 C15 C16 C17 C19}
 go1.26.8 build -o bin/verifctl ./cmd/verifctl || exit 2
 for id in $ids; do
   echo "=== $id thorough seed=$seed cap=${cap}s $(date +%T)"
